@@ -123,6 +123,12 @@ func (ex *Exec) store(st *State, l *Loc, v *Term) {
 		return
 	}
 	root := ex.get(st, l.Comp, l.CompSort)
+	if l.SlIdx != nil && len(l.Keys) == 2 && len(l.Path) == 0 {
+		// slice element: keep the update in index-relative form (see slAt)
+		content := Select(root, l.Keys[0])
+		ex.set(st, l.Comp, Store(root, l.Keys[0], ex.slUpd(content, l.SlOff, l.SlIdx, v)))
+		return
+	}
 	ex.set(st, l.Comp, ex.updateAt(root, l.Keys, l.Path, v))
 }
 
